@@ -397,8 +397,11 @@ class Run:
         cov["exhaustive"] = bool(self.exhaustive)
         ev = dict(property_id=self.prop, tier=self.tier, seed=int(self.seed), level="model_checking",
                   coverage=cov, assumptions=self.assumptions, wall_s=round(time.time() - self.t0, 1), violations=nviol)
-        os.makedirs(EVID, exist_ok=True)
-        with open(os.path.join(EVID, self.prop + ".json"), "w") as f:
+        # a run against a scratch copy of the repository (VERIF_REPO, used to try the checks on changed code) is not evidence
+        # about /repo: its record goes next to its other outputs
+        evid = EVID if not os.environ.get("VERIF_REPO") else self.dir
+        os.makedirs(evid, exist_ok=True)
+        with open(os.path.join(evid, self.prop + (".json" if evid == EVID else ".evidence.json")), "w") as f:
             json.dump(ev, f, indent=1)
 
 
